@@ -56,9 +56,30 @@ def rule_widen(c, prog):
                 c.violation(R, f"grammar|{wire}|{decl}", f"arm (Type::{wire}, VariantType::{decl}) reads {rd}; a chunk of wire type {wire} is laid out as {natural_read[wire]} (docs/binary.md), so this arm misreads it", core.loc(arm["body"]), instance=inst)
 
 
+def _untyped(t):
+    while isinstance(t, tuple) and t and t[0] == "cast":
+        t = t[2]
+    return t
+
+
+def _untry(t):
+    while isinstance(t, tuple) and t and t[0] == "try":
+        t = t[1]
+    return t
+
+
+def _const_bytes(t):
+    if t[0] == "c" and isinstance(t[1], tuple):
+        return tuple(t[1])
+    if t[0] == "vec" and all(sg[0] == "one" and sg[1][0] == "c" for sg in t[1]):
+        return tuple(sg[1][1] for sg in t[1])
+    return None
+
+
 def rule_comp(c, prog):
     R = "C04.comp"
-    c.rule(R, "Chunk::decode: compressed_len == 0 => raw bytes; otherwise Zstandard iff the payload starts with the documented magic 28 b5 2f fd, else LZ4; both receive the uncompressed length")
+    c.rule(R, "Chunk::decode (symbolic paths): header = name[4] · compressed_len · len · reserved (little-endian u32s); compressed_len == 0 => the payload is `len` raw bytes; otherwise `compressed_len` bytes that are Zstandard iff they start with the documented magic 28 b5 2f fd, else LZ4; both decompressors receive the uncompressed length")
+    from sa import sym, wire
     K = doc_header_constants()
     fn = prog.fn("rbx_binary::chunk::Chunk::decode")
     magic = common.const_value(prog, "rbx_binary::chunk::ZSTD_MAGIC_NUMBER")
@@ -66,60 +87,81 @@ def rule_comp(c, prog):
         c.ok(R, "magic=doc")
     else:
         c.violation(R, "magic|value", f"ZSTD_MAGIC_NUMBER is {magic}; docs/binary.md says {K['zstd']}", fn.sp, instance="magic=doc")
-    ifs = [n for n in core.walk_fn(fn) if n.get("k") == "If"]
-    top = None
-    for n in ifs:
-        cnd = core.strip(n["c"])
-        if cnd.get("k") == "Binary" and cnd["op"] == "==" and core.place_root(cnd["l"]) == ("header", ["compressed_len"]) and core.lit_value(cnd["r"]) == 0:
-            top = n
-    if top is None:
-        c.violation(R, "raw|cond", "Chunk::decode no longer selects the raw path by `header.compressed_len == 0`", fn.sp, instance="raw-iff-zero")
+    env = {p["lid"]: ("in", p["name"]) for p in fn.params}
+    try:
+        I, val, ex = wire.run_region(prog, fn.body, env, wire.BYTE_PRIMS, depth=8)
+        paths = [pp for pp in sym.event_paths(I.events) if pp[2] is None]
+    except sym.Unsupported as e:
+        c.violation(R, "decode|cannot-analyse", f"Chunk::decode is outside the symbolic model: {e}", fn.sp, instance="decode:paths")
         return
-    c.ok(R, "raw-iff-zero")
+    if not paths:
+        c.violation(R, "decode|no-success-path", "Chunk::decode has no successful path", fn.sp, instance="decode:paths")
+        return
 
-    def calls(n):
-        return [core.callee(x) for x in core.walk(n) if x.get("k") in ("Call", "MethodCall") and core.callee(x)]
-    raw = calls(top["t"])
-    if not any("decompress" in x for x in raw) and any(x.endswith("Read::read_to_end") for x in raw):
+    def le_u32(rid):
+        return ("app", "core::num::<impl u32>::from_le_bytes", (("rd", rid),))
+    raw_ok = comp_ok = 0
+    problems = []
+    succ = []
+    for conds, evs, _x, _v in paths:
+        for cs2, v in sym.value_alternatives(sym.resolve(val, conds)):
+            if sym.is_var(v, sym.OK) and sym.consistent(conds + cs2):
+                succ.append((conds + cs2, evs, v))
+    for conds, evs, v in succ:
+        reads = [e for e in evs if e[0] == "R"]
+        sizes = [_untyped(e[4]) for e in reads]
+        if len(reads) < 5 or sizes[:4] != [("c", 4)] * 4:
+            problems.append(("header", f"a successful path reads {[sym.term_str(x, 4) for x in sizes]}; the chunk header is four 4-byte fields followed by the payload"))
+            continue
+        r_name, r_clen, r_len, r_res, r_pay = [e[2] for e in reads[:5]]
+        CL, L = le_u32(r_clen), le_u32(r_len)
+        okv = sym.is_var(v, sym.OK) and v[2] and v[2][0][0] == "st"
+        data = sym.fld(v[2][0], "data") if okv else None
+        name = sym.fld(v[2][0], "name") if okv else None
+        if name != ("rd", r_name):
+            problems.append(("name", "the chunk name is not the first header field"))
+        cs = set(conds)
+        is_zero = ("op", "==", CL, ("c", 0))
+        if is_zero in cs:
+            if sizes[4] == L and data == ("rd", r_pay) and len(reads) == 5:
+                raw_ok += 1
+            else:
+                problems.append(("raw", f"with compressed_len == 0 the payload read has size {sym.term_str(sizes[4], 5)} and the data is {sym.term_str(data, 5) if data else None}; required: `len` raw bytes, undecoded"))
+        elif sym.negate(is_zero) in cs:
+            want_sz = CL
+            alts = dict()
+            if data is not None and data[0] == "phi":
+                for cnd, x in data[1]:
+                    alts[cnd] = x
+            sw = [cnd for cnd in alts if cnd[0] == "app" and cnd[1].endswith("::starts_with")]
+            good = sizes[4] == want_sz and len(reads) == 5 and len(sw) == 1
+            if good:
+                t = sw[0]
+                good = t[2][0] == ("rd", r_pay) and _const_bytes(t[2][1]) == tuple(K["zstd"])
+                z = _untry(alts[t])
+                other = [x for cnd, x in alts.items() if cnd != t]
+                l4 = _untry(other[0]) if len(other) == 1 else None
+                good = good and z[0] == "app" and z[1] == "zstd::bulk::decompress" and z[2][0] == ("rd", r_pay) and _untyped(z[2][1]) == L
+                good = good and l4 is not None and l4[0] == "app" and l4[1] == "lz4::block::decompress" and l4[2][0] == ("rd", r_pay) \
+                    and sym.is_var(l4[2][1], sym.SOME) and _untyped(l4[2][1][2][0]) == L
+            if good:
+                comp_ok += 1
+            else:
+                problems.append(("compressed", f"with compressed_len != 0 the payload read has size {sym.term_str(sizes[4], 5)} and the data is {sym.term_str(data, 7) if data else None}; required: `compressed_len` bytes, zstd(payload, len) iff payload starts with {K['zstd']}, else lz4(payload, Some(len))"))
+        else:
+            problems.append(("dispatch", "a successful path does not branch on `compressed_len == 0`"))
+    for kind, msg in sorted(set(problems)):
+        c.violation(R, f"decode|{kind}", f"Chunk::decode: {msg}", fn.sp, instance=f"decode:{kind}")
+    if raw_ok and not any(k in ("raw", "dispatch", "header") for k, _ in problems):
+        c.ok(R, "raw-iff-zero")
         c.ok(R, "raw:no-decompress")
-    else:
-        c.violation(R, "raw|body", "the raw branch decompresses or does not read the payload", core.loc(top["t"]), instance="raw:no-decompress")
-    inner = [n for n in core.walk(top["f"]) if n.get("k") == "If"]
-    ok = False
-    for n in inner:
-        cnd = core.strip(n["c"])
-        if cnd.get("k") == "Binary" and cnd["op"] == "==":
-            sides = [core.strip(cnd["l"]), core.strip(cnd["r"])]
-            has_magic = any(s.get("k") == "Path" and s.get("def") == "rbx_binary::chunk::ZSTD_MAGIC_NUMBER" for s in sides)
-            idx = [s for s in sides if s.get("k") == "Index"]
-            rng = None
-            if idx:
-                r = core.strip(idx[0]["r"])
-                if r.get("k") == "Struct":
-                    f = {q["f"]: core.lit_value(q["e"]) for q in r["fields"]}
-                    rng = (f.get("start"), f.get("end"))
-            if has_magic and rng == (0, 4):
-                t, f = calls(n["t"]), calls(n["f"])
-                ok = any(x == "zstd::bulk::decompress" for x in t) and any(x == "lz4::block::decompress" for x in f)
-        if cnd.get("k") == "MethodCall" and cnd["m"] == "starts_with":
-            a = core.strip(cnd["args"][0])
-            if a.get("def") == "rbx_binary::chunk::ZSTD_MAGIC_NUMBER":
-                t, f = calls(n["t"]), calls(n["f"])
-                ok = any(x == "zstd::bulk::decompress" for x in t) and any(x == "lz4::block::decompress" for x in f)
-    if ok:
+    if comp_ok and not any(k in ("compressed", "dispatch", "header") for k, _ in problems):
         c.ok(R, "zstd-iff-magic-else-lz4")
-    else:
-        c.violation(R, "detect|shape", "compressed chunks are no longer dispatched as `first four bytes == ZSTD magic => zstd, else lz4`", fn.sp, instance="zstd-iff-magic-else-lz4")
-    # both decompressors get header.len
-    okl = True
-    for x in core.walk_fn(fn):
-        if x.get("k") == "Call" and (core.callee(x) or "").endswith("::decompress"):
-            if "header.len" not in core.fingerprint(x["args"][1], 5):
-                okl = False
-    if okl:
         c.ok(R, "decompress:uncompressed-length")
-    else:
-        c.violation(R, "decompress|len", "a decompressor is not given header.len as the output size", fn.sp, instance="decompress:uncompressed-length")
+    if not raw_ok and not any(k == "raw" for k, _ in problems):
+        c.violation(R, "raw|cond", "Chunk::decode has no successful path for compressed_len == 0", fn.sp, instance="raw-iff-zero")
+    if not comp_ok and not any(k == "compressed" for k, _ in problems):
+        c.violation(R, "detect|shape", "Chunk::decode has no successful path for compressed_len != 0", fn.sp, instance="zstd-iff-magic-else-lz4")
 
 
 def rule_disp(c, prog):
@@ -220,18 +262,50 @@ def rule_ids(c, prog):
         c.violation(R, "sstr|index", "SharedString indices are no longer resolved with a checked `shared_strings.get(i)` (a foreign index equal to the count would panic)", core.loc(arm["body"]), instance="sstr-index:checked")
     # PRNT: parents resolved through instances_by_ref, roots iff -1
     fp_ = common.find_fn(prog, DS + "decode_prnt_chunk$")
+    from sa import decision
+
+    def role(n):
+        n0 = core.strip(n)
+        if n0.get("k") == "LetExpr":
+            # match arm `-1 => ..` on the parent referent
+            p = n0["pat"]
+            v = core.lit_value(p["e"]) if p.get("k") == "Expr" and isinstance(p.get("e"), dict) else None
+            if v == -1:
+                return "NULLPARENT"
+            return "let:" + core.pat_str(p)
+        if n0.get("k") == "Binary" and n0["op"] in ("==", "!=") and (core.lit_value(n0["r"]) == -1 or core.lit_value(n0["l"]) == -1):
+            return "NULLPARENT" if n0["op"] == "==" else "!NULLPARENT"
+        return "?" + core.fingerprint(n0, 4)
+
+    def eff(n):
+        n0 = core.strip(n)
+        if n0.get("k") == "MethodCall" and n0["m"] == "push":
+            root, path = core.place_root(n0["recv"])
+            if (root, path) == ("self", ["root_instance_refs"]):
+                return "root += id"
+            if "children" in path:
+                # the parent must be looked up through instances_by_ref
+                return "children += id"
+        return "·"
+    loops = [core.as_for(n) for n in core.walk_fn(fp_, into_closures=False) if core.as_for(n) is not None and n.get("k") != "DropTemps"]
     ok = False
-    for n in core.walk_fn(fp_):
-        if n.get("k") == "If":
-            cnd = core.strip(n["c"])
-            if cnd.get("k") == "Binary" and cnd["op"] == "==" and core.lit_value(cnd["r"]) == -1:
-                t_push = any(x.get("k") == "MethodCall" and x["m"] == "push" and core.place_root(x["recv"]) == ("self", ["root_instance_refs"]) for x in core.walk(n["t"]))
-                f_push = "f" in n and any(x.get("k") == "MethodCall" and x["m"] == "push" and "children" in core.place_root(x["recv"])[1] for x in core.walk(n["f"]))
-                ok = t_push and f_push
+    got = None
+    if len(loops) == 1:
+        tb = decision.Tabler(namer=role, effect_namer=eff)
+        t = {}
+        for k, v in decision.table(tb.paths(loops[0][2])).items():
+            cs = frozenset(("NULLPARENT", not val) if a == "!NULLPARENT" else (a, val) for a, val in k)
+            t.setdefault(cs, set()).update((tuple(e for e in ef if e != "·"), ex) for ef, ex in v)
+        got = {k: sorted(v) for k, v in t.items()}
+        want = {frozenset({("NULLPARENT", True)}): [(("root += id",), None)], frozenset({("NULLPARENT", False)}): [(("children += id",), None)]}
+        ok, _diff = decision.same_function(got, want)
+        # `children` belongs to the instance found under the parent referent in instances_by_ref
+        if ok and not any(x.get("k") == "MethodCall" and x["m"] == "get_mut" and core.place_root(x["recv"]) == ("self", ["instances_by_ref"]) for x in core.walk(loops[0][2])):
+            ok = False
     if ok:
         c.ok(R, "prnt:null-parent=root")
     else:
-        c.violation(R, "prnt|shape", "decode_prnt_chunk no longer files `parent == -1` as a root and every other instance under its parent's children in PRNT order", fp_.sp, instance="prnt:null-parent=root")
+        c.violation(R, "prnt|shape", f"decode_prnt_chunk no longer files `parent == -1` as a root and every other instance under its parent's children in PRNT order (decision table: {got})", fp_.sp, instance="prnt:null-parent=root")
 
 
 def run(c, prog):
